@@ -1,3 +1,4 @@
+import PlumVerif.Model.ParseEnvelope
 import PlumVerif.Proofs.Envelope
 import PlumVerif.Proofs.Requests
 import PlumVerif.Model.NetVersion
@@ -36,6 +37,27 @@ theorem read_encode_too_long (f : Fields) (rest : List Byte)
   simp only [List.cons_append, scan, if_true, List.nil_append]
   simp only [hL, hdr_eq, minLen_eq, maxLen_eq]
   rw [if_pos (by omega)]
+
+/-- **serialise → parse, gate-free**: EVERY frame the library can serialise (any recipient --
+also 0x45, the controller, to which the library's own requests go --, any sender, any kind byte,
+any payload the 16-bit length field can describe) followed by anything is read back by the
+structural parser as exactly the same kind, addressing, versions and payload, consuming exactly
+the frame.  `read_encode` is this statement behind the reader's gates. -/
+theorem parse_encode (f : Fields) (rest : List Byte) (hlen : f.payload.length + 10 < 65536) :
+    parseEnvelope (encode f ++ rest) = some (f, rest) := by
+  have hL := le16_roundtrip (f.payload.length + 10) hlen
+  unfold parseEnvelope encode encodeWith
+  simp only [List.cons_append, List.nil_append]
+  simp only [hL]
+  rw [if_neg (by simp)]
+  generalize hc : bcc (startByte :: ((f.payload.length + 10) % 256).toUInt8 ::
+      ((f.payload.length + 10) / 256).toUInt8 :: f.rcpt :: f.sender :: f.etype :: f.ever :: f.kind :: f.payload) = c
+  simp only [body_drop, body_take, body_take2, body_crc, body_payload, List.headD_cons]
+  rw [hc]
+  simp
+
+example : parseEnvelope (encode ⟨0x33, 0x45, 0x56, 48, 5, [7, 42]⟩ ++ [0x68, 0x00]) =
+    some (⟨0x33, 0x45, 0x56, 48, 5, [7, 42]⟩, [0x68, 0x00]) := by decide
 
 /-! ### read → re-serialise -/
 
